@@ -327,7 +327,8 @@ def generate(tree):
         except Err as e:
             raise Err("%s (%s:%d): %s" % (name, f, line, e))
         s = snake(name)
-        out.append("(* %s, %s:%d, %d capture group%s%s *)" % (name, f, line, p.ngroups, "" if p.ngroups == 1 else "s",
+        # (no line number: the generated file must not change when unrelated lines are added to the source)
+        out.append("(* %s, %s, %d capture group%s%s *)" % (name, f, p.ngroups, "" if p.ngroups == 1 else "s",
                                                          ", multi-line" if p.multiline else ""))
         out.append("Definition src_%s : string := %s." % (s, '"' + text.replace('"', '""') + '"'))
         body = emit(ast)
